@@ -1055,6 +1055,10 @@ fn op_kind(op: &Op) -> u32 {
 
 pub fn execute(t: &Trace, c12: bool) -> Outcome {
     ledger::reset();
+    let careful = simcore::faultalloc::careful() && !cfg!(miri);
+    if careful {
+        simcore::faultalloc::track(true);
+    }
     let mut out = Outcome::default();
     let _ = writeln!(out.log, "seed={} run={} engine={}", t.seed, t.run, if c12 { "write-l2" } else { "own-l2" });
     let mut ex = Exec { hs: (0..NH).map(|_| None).collect(), next: 1, ctr: Ctr { v: vec![] }, c12, step: 0, _t: t };
@@ -1086,6 +1090,10 @@ pub fn execute(t: &Trace, c12: bool) -> Outcome {
         let k = op_kind(op);
         out.transitions.push((prev << 8) | k);
         prev = k;
+        if careful && simcore::faultalloc::double_frees() > 0 {
+            viol = Some(Violation { oracle: "O4-double-free".into(), step, detail: "a heap block was released twice during this call".into() });
+            break 'ops;
+        }
         let bad = ledger::take_bad();
         if !bad.is_empty() {
             viol = Some(Violation { oracle: "O1-exactly-once".into(), step, detail: bad[0].clone() });
@@ -1138,6 +1146,12 @@ pub fn execute(t: &Trace, c12: bool) -> Outcome {
             }
         }
         let _ = writeln!(out.log, "end live={:?} drops={}", ledger::live(), ledger::drops());
+    }
+    if careful {
+        if viol.is_none() && simcore::faultalloc::double_frees() > 0 {
+            viol = Some(Violation { oracle: "O4-double-free".into(), step: t.ops.len(), detail: "a heap block was released twice while the remaining handles were destroyed".into() });
+        }
+        simcore::faultalloc::track(false);
     }
     if let Some(v) = &viol {
         let _ = writeln!(out.log, "VIOLATION oracle={} step={} {}", v.oracle, v.step, v.detail);
